@@ -22,8 +22,9 @@ impl Frame {
     { match self { Frame::Trailers(b) => Ok(b), f => Err(f) } }
 }
 // The inner body with a ghost history: every DATA byte it has delivered so far, whether it reported its end,
-// and how often it was polled.
-pub struct Body { pub received: Ghost<Seq<u8>>, pub ended: Ghost<bool>, pub polls: Ghost<nat> }
+// how often it was polled, and how many DATA frames / trailers frames / errors it has delivered.
+pub struct Body { pub received: Ghost<Seq<u8>>, pub ended: Ghost<bool>, pub polls: Ghost<nat>,
+    pub data_frames: Ghost<nat>, pub trailer_frames: Ghost<nat>, pub errors: Ghost<nat> }
 pub open spec fn body_step(pre: Body, post: Body, r: Poll<Option<Result<Frame, Status>>>) -> bool {
     &&& post.polls@ == pre.polls@ + 1
     &&& match r {
@@ -31,6 +32,9 @@ pub open spec fn body_step(pre: Body, post: Body, r: Poll<Option<Result<Frame, S
         Poll::Ready(None) => post.received@ == pre.received@ && post.ended@,
         _ => post.received@ == pre.received@ && post.ended@ == pre.ended@,
     }
+    &&& post.data_frames@ == pre.data_frames@ + (if r matches Poll::Ready(Some(Ok(Frame::Data(_)))) { 1nat } else { 0nat })
+    &&& post.trailer_frames@ == pre.trailer_frames@ + (if r matches Poll::Ready(Some(Ok(Frame::Trailers(_)))) { 1nat } else { 0nat })
+    &&& post.errors@ == pre.errors@ + (if r matches Poll::Ready(Some(Err(_))) { 1nat } else { 0nat })
 }
 pub struct Pin<P> { pub p: P }
 impl<'a> Pin<&'a mut Body> {
@@ -122,7 +126,7 @@ def build():
     u.item('tonic/src/codec/buffer.rs', 'struct', 'DecodeBuf')
     u.raw(SHIMS)
     u.item(D, 'enum', 'State')
-    u.item(D, 'enum', 'Direction', derives='PartialEq, Eq')
+    u.item(D, 'enum', 'Direction', derives='PartialEq, Eq, Structural')
     u.item(D, 'struct', 'StreamingInner')
     u.item(D, 'struct', 'Streaming', attrs=['#[verifier::reject_recursive_types(T)]'], edits=[
         lambda t: t.sub_code('R12', r"Box<dyn Decoder<Item = T, Error = Status> \+ Send \+ 'static>", 'DEC'),
@@ -186,6 +190,11 @@ def build():
              Clause('PF_otherwise_buffers_untouched',
                     '''!(r matches Poll::Ready(Ok(Some(_)))) ==> final(self).buf == old(self).buf && final(self).state == old(self).state
                 && final(self).same_config(old(self)) && final(self).body.received@ == old(self).body.received@''', ['C01', 'C07']),
+             Clause('PF_every_data_frame_is_buffered_even_an_empty_one',
+                    '(r matches Poll::Ready(Ok(Some(_)))) <==> final(self).body.data_frames@ == old(self).body.data_frames@ + 1', ['C01', 'C02', 'C07']),
+             Clause('PF_stream_end_is_reported_only_at_the_end_of_the_body_on_a_trailers_frame_or_on_a_cancelled_request',
+                    '''r matches Poll::Ready(Ok(None)) ==> final(self).body.ended@ || final(self).body.trailer_frames@ == old(self).body.trailer_frames@ + 1
+                || (old(self).direction == Direction::Request && final(self).body.errors@ == old(self).body.errors@ + 1)''', ['C01', 'C02', 'C07']),
              Clause('PF_eof_with_leftover_is_error',
                     '''r matches Poll::Ready(Ok(None)) && final(self).body.ended@ && !old(self).body.ended@ && final(self).trailers == old(self).trailers
                 ==> old(self).buf@.len() == 0''', ['C07']),
